@@ -30,6 +30,8 @@ class ScriptedDefuzzifier(fl.Defuzzifier):
     def __init__(self) -> None:
         self.next_values: list[float] | None = None
         self.next_exc: BaseException | None = None
+        self.next_as = "array"
+        self.buffer: np.ndarray | None = None
         self.calls = 0
         self.seen_terms: list | None = None
 
@@ -44,10 +46,24 @@ class ScriptedDefuzzifier(fl.Defuzzifier):
         self.seen_terms = list(term.terms)
         if self.next_exc is not None:
             e, self.next_exc = self.next_exc, None
+            if self.buffer is not None:  # a defuzzifier may scribble into its own buffer before it fails
+                self.buffer[:] = 12345.678
             raise e
         vals = self.next_values
         assert vals is not None
+        if self.buffer is not None:
+            # legal for a Defuzzifier: write the result into a preallocated buffer and return (a view of) it
+            if len(vals) > len(self.buffer):
+                self.buffer = np.full(len(vals), np.nan)
+            self.buffer[: len(vals)] = vals
+            return self.buffer[0:1].reshape(()) if len(vals) == 1 else self.buffer[: len(vals)]
         if len(vals) == 1:
+            if self.next_as == "npscalar":  # what WeightedAverage / WeightedSum return for scalar inputs
+                return np.float64(vals[0])
+            if self.next_as == "pyfloat":  # what a user-written defuzzifier may return
+                return float(vals[0])
+            if self.next_as == "array1":
+                return np.array([vals[0]], dtype=np.float64)
             return np.array(vals[0], dtype=np.float64)
         return np.array(vals, dtype=np.float64)
 
@@ -170,7 +186,7 @@ class C12(Sim):
             "cascade had to change (NaN filled, default applied, or clipped) or an injected failure. Distinct = "
             "distinct (settings tuple, op-kind/call-size sequence, value-class sequence, fault positions).")
     assumptions = [
-        "the stub defuzzifier returns freshly allocated float64 arrays (0-d for one row, 1-d for a batch), as the real integral defuzzifiers do",
+        "the stub defuzzifier returns freshly allocated float64 arrays (0-d or 1-element for one row, 1-d for a batch) as the real integral defuzzifiers do, or a NumPy scalar / Python float for one row as the weighted defuzzifiers and user-written ones do",
         "+-inf are values, not NaN (the property and the code say NaN; the docstring's 'not finite' is not followed)",
         "range bounds are not NaN and minimum <= maximum",
     ]
@@ -186,7 +202,7 @@ class C12(Sim):
         "fill_forward_inside_batch", "fill_forward_across_call_boundary", "default_applied_after_lock_previous_miss",
         "default_clipped", "value_clipped", "carried_value_clipped_after_range_change", "infinite_value_kept",
         "failure_with_nonempty_fuzzy_output", "failure_as_first_call", "clear_between_nan_and_predecessor",
-        "disabled_variable_untouched",
+        "disabled_variable_untouched", "defuzzifier_reuses_its_result_buffer",
     ]
 
     # ------------------------------------------------------------------ generation
@@ -194,7 +210,7 @@ class C12(Sim):
         lo, hi = rng.choice([(0.0, 1.0), (-1.0, 1.0), (-5.0, 20.0), (0.0, 0.0), (-inf, inf), (-inf, 3.0), (2.0, inf)])
         d, _ = draw_value(rng, lo, hi, [40, 30, 12, 12, 1, 1, 2, 2])
         return {"min": fenc(lo), "max": fenc(hi), "lock_range": rng.random() < 0.5, "lock_previous": rng.random() < 0.6,
-                "default": fenc(d), "enabled": rng.random() < 0.93}
+                "default": fenc(d), "enabled": rng.random() < 0.93, "stub_buffer": rng.random() < 0.3}
 
     def gen_ops(self, rng, cfg: dict, n: int, faults: bool, maxrows: int = 5) -> list[dict]:
         lo, hi = fdec(cfg["min"]), fdec(cfg["max"])
@@ -203,7 +219,8 @@ class C12(Sim):
             r = rng.random()
             if r < 0.55:
                 k = rng.choice([1, 1, 1, 2, 3, 4, maxrows])
-                ops.append({"op": "call", "vals": [fenc(draw_value(rng, lo, hi)[0]) for _ in range(k)]})
+                ops.append({"op": "call", "vals": [fenc(draw_value(rng, lo, hi)[0]) for _ in range(k)],
+                            "as": rng.choice(["array", "array", "npscalar", "pyfloat", "array1"])})
             elif r < 0.65 and faults:
                 ops.append({"op": "fail", "exc": rng.choice(EXC_NAMES)})
             elif r < 0.72:
@@ -279,6 +296,9 @@ class C12(Sim):
         log = [] if keep_log else None
         m = Model(cfg)
         stub = ScriptedDefuzzifier()
+        if cfg.get("stub_buffer"):
+            stub.buffer = np.full(8, np.nan)
+            st.hit("probes.defuzzifier_reuses_its_result_buffer")
         ov = fl.OutputVariable(
             "o", minimum=fdec(cfg["min"]), maximum=fdec(cfg["max"]), lock_range=cfg["lock_range"],
             lock_previous=cfg["lock_previous"], default_value=fdec(cfg["default"]), enabled=cfg["enabled"],
@@ -306,6 +326,9 @@ class C12(Sim):
             if kind == "call":
                 vs = [fdec(v) for v in op["vals"]]
                 stub.next_values = vs
+                stub.next_as = op.get("as", "array")
+                if len(vs) == 1 and stub.next_as != "array":
+                    st.hit("probes.stub_returned_" + stub.next_as)
                 calls0 = stub.calls
                 try:
                     ov.defuzzify()
@@ -424,7 +447,7 @@ class C12(Sim):
                             c["ops"][i]["vals"][j] = simple
                             yield c
         cfg = trace["config"]
-        for key, simple in (("lock_previous", False), ("lock_range", False), ("default", "nan"), ("min", 0.0), ("max", 1.0)):
+        for key, simple in (("lock_previous", False), ("lock_range", False), ("default", "nan"), ("min", 0.0), ("max", 1.0), ("stub_buffer", False)):
             if cfg[key] != simple:
                 c = copy.deepcopy(trace)
                 c["config"][key] = simple
